@@ -88,7 +88,7 @@ func Run(run *ev.Run) {
 	run.Rule("case = (schema set, named type, abstract value, wire format); values are drawn from the schema by the harness (uniform + hostile pools; a fixed sweep puts every code point U+0000-U+00FF and every byte 0x00-0xFF " +
 		"into every string-/bytes-bearing position kind: field, array item, map value, map key, union member); each case is encoded by the library, decoded by the matching reader and compared with the original after filling defaults " +
 		"(floats by bit pattern, NaN~NaN, nil~empty) and with the type's own Equals. distinct_nontrivial = distinct (format, position kind, leaf kind, content class) features observed in round-tripped values that contain a hostile leaf")
-	run.Assume("reflection bridge (self-checked at start: Read(Build(v)) == v)", "strings that are not valid UTF-8 are kept out of string-typed positions", "v2 generation only: the root generator is not driven by this check")
+	run.Assume("reflection bridge (self-checked at start: Read(Build(v)) == v)", "strings that are not valid UTF-8 are kept out of string-typed positions", "both generations: the root module through types-only bindings written by its own generator")
 	rng := rand.New(rand.NewSource(run.Seed))
 	perType := run.Pick(150, 1500)
 	if len(all.Sets) == 0 {
